@@ -15,7 +15,7 @@ RULE = (
     "Hypothesis draws a batch of 0-8 elements over a small key alphabet (so duplicates are frequent); each key is mapped by a side table to a value, "
     "to an exception raised by the body (builtin / custom / not rebuildable) or to an unsupported return type (failure outside the body); a subset is memoized beforehand; "
     "the batch is evaluated through call_batch (raise_first_exception true/false; full kwargs or a positional/keyword partial prefix) or map_over_range (list, range-like, generator, iterator) "
-    "on filesystem, filesystem+cache and memory backends. Oracle: a twin store on which the same elements are evaluated one by one. Position by position equal values, "
+    "on filesystem, filesystem+cache and memory backends, with or without context arguments on the function (attached before or after the partial application), and - with a cache - optionally after reopening the store and reading some of the memoized elements individually (a mix of cached and disk-only mementos). Oracle: a twin store on which the same elements are evaluated one by one. Position by position equal values, "
     "exceptions of the same class with the original message; raise_first_exception raises the first failing slot's exception; every distinct memoizable element's body ran at most once "
     "(zero times if memoized beforehand); the final store (set of (function, arg hash), result types, stored values / exception records) equals the twin's. "
     "Non-trivial = batch with a duplicate or a failure and a partly memoized subset; distinct by (element kinds sequence, subset, mode)."
@@ -68,7 +68,7 @@ def _same_exc(a, b):
 
 
 def _store_view(st):
-    ref = tfuncs.bat.fn_reference()
+    ref = tfuncs.bat.fn_reference()   # (context arguments are part of the arg hash, not of the function reference)
     view = {}
     for mem in st.list_mementos(ref) or []:
         rwa = mem.invocation_metadata.fn_reference_with_args
@@ -88,6 +88,9 @@ def execute(case, scratch):
         batch = case["batch"]
         distinct = list(dict.fromkeys(batch))
         pre = [k for k in case["pre"]]
+        # every call of the case - individual or batch - is made under the same context arguments (or none)
+        ctx_args = case.get("ctx")
+        base_fn = tfuncs.bat if ctx_args is None else tfuncs.bat.with_context_args(dict(ctx_args))
         # ---- twin: element-wise
         twin = _mk(case, d, "twin")
         rt.take()
@@ -95,8 +98,8 @@ def execute(case, scratch):
         again = {}    # outcome of a later individual call (served from the store when memoizable)
         for k in pre + distinct:
             if k not in single:
-                single[k] = _outcome_of(lambda: tfuncs.bat(P, k))
-                again[k] = _outcome_of(lambda: tfuncs.bat(P, k))
+                single[k] = _outcome_of(lambda: base_fn(P, k))
+                again[k] = _outcome_of(lambda: base_fn(P, k))
         rt.take()
 
         def expected(i):
@@ -106,10 +109,17 @@ def execute(case, scratch):
         # ---- batch store
         st = _mk(case, d, "batch")
         for k in pre:
-            _outcome_of(lambda: tfuncs.bat(P, k))
+            _outcome_of(lambda: base_fn(P, k))
+        if case.get("warm") is not None:
+            # a new backend object on the same store (cold memory cache), then some of the memoized elements are read
+            # individually: the batch meets a mix of cached and disk-only mementos
+            st = _mk(case, d, "batch")
+            for k in case["warm"]:
+                if k in pre:
+                    _outcome_of(lambda: base_fn(P, k))
         rt.take()
         mode = case["mode"]
-        fn = tfuncs.bat
+        fn = base_fn if not case.get("ctx_last") else tfuncs.bat
         try:
             if mode["api"] == "call_batch":
                 if mode["prefix"] == "none":
@@ -118,11 +128,15 @@ def execute(case, scratch):
                     f, kw = fn.partial(P), [{"k": k} for k in batch]
                 else:
                     f, kw = fn.partial(p=P), [{"k": k} for k in batch]
+                if case.get("ctx_last") and ctx_args is not None:
+                    f = f.with_context_args(dict(ctx_args))     # context attached after the partial application
                 got = _outcome_of(lambda: f.call_batch(kw, raise_first_exception=mode["raise_first"]))
             else:
                 it = {"list": lambda: list(batch), "tuple": lambda: tuple(batch), "gen": lambda: (x for x in batch),
                       "iter": lambda: iter(list(batch))}[mode["iterable"]]()
                 f = fn.partial(P) if mode["prefix"] == "pos" else fn.partial(p=P)
+                if case.get("ctx_last") and ctx_args is not None:
+                    f = f.with_context_args(dict(ctx_args))
                 got = _outcome_of(lambda: f.map_over_range(k=it))
         except Exception as e:
             raise
@@ -180,8 +194,8 @@ def execute(case, scratch):
         dup = len(distinct) < len(batch)
         out.nontrivial = (dup or bool(failing)) and bool(pre) and len(set(pre) & set(distinct)) < len(distinct)
         out.labels = ["api:" + mode["api"], "backend:" + case["backend"]] + (["dup"] if dup else []) + (["failing"] if failing else []) + \
-            (["pre"] if pre else []) + (["empty"] if not batch else []) + (["iter:" + mode["iterable"]] if mode["api"] == "map_over_range" else [])
-        out.nt_key = [[case["elements"][str(k)]["kind"] for k in batch], [batch.index(k) for k in batch], sorted(pre), mode, case["backend"]]
+            (["pre"] if pre else []) + (["context-args"] if ctx_args else []) + (["cold-cache-partly-warmed"] if case.get("warm") is not None else []) + (["empty"] if not batch else []) + (["iter:" + mode["iterable"]] if mode["api"] == "map_over_range" else [])
+        out.nt_key = [[case["elements"][str(k)]["kind"] for k in batch], [batch.index(k) for k in batch], sorted(pre), mode, case["backend"], bool(ctx_args), case.get("warm")]
         return out
     except Exception as e:
         sig = lib_exception_signature(e)
@@ -226,8 +240,11 @@ def strategy():
             batch = draw(st.lists(st.sampled_from(keys), min_size=size, max_size=size))
             mode = {"api": api, "prefix": draw(st.sampled_from(["none", "pos", "kw"])), "raise_first": draw(st.booleans())}
         pre = draw(st.lists(st.sampled_from(keys), max_size=nkeys, unique=True))
-        return {"elements": elements, "batch": batch, "pre": sorted(pre), "mode": mode,
-                "backend": draw(st.sampled_from(["fs", "fsc", "mem"]))}
+        backend = draw(st.sampled_from(["fs", "fsc", "fsc", "mem"]))
+        ctx = draw(st.sampled_from([None, None, {"tenant": "a"}, {"tenant": "b", "asof": 3}]))
+        warm = draw(st.lists(st.sampled_from(keys), max_size=nkeys, unique=True)) if (backend == "fsc" and draw(st.booleans())) else None
+        return {"elements": elements, "batch": batch, "pre": sorted(pre), "mode": mode, "backend": backend,
+                "ctx": ctx, "ctx_last": draw(st.booleans()), "warm": warm}
 
     return case()
 
